@@ -78,6 +78,13 @@ def cases(tier):
         out.append(dict(name="%s_two_estimands" % pi[:2], pi=pi, alphas=alphas, estimands=["dem", "turnout"],
                         units=P.standard_units(nrep, 1, [EXTRA["unexp_new"](0), EXTRA["block"](1)], cls=True),
                         aggregates=["postal_code", "county_fips", "unit"], cut_calibration=True, weight=nrep + 10))
+    # bootstrap estimator (margin): counted margin conserved, divided by the group's predicted two-party turnout
+    from . import bs as BS
+
+    for nunexp, symb, aggs in ((1, True, ["postal_code", "county_fips", "unit"]), (2, False, ["postal_code", "county_fips", "unit"]),
+                               (0, False, ["postal_code", "county_classification", "unit"])):
+        out.append(dict(name="bs_unexp%d_%s" % (nunexp, aggs[1][7:12]), pi="bootstrap", alphas=[0.9], estimands=["margin"], B=2,
+                        units=BS.margin_units(10, 2, nunexp, symbolic_unexpected=symb), aggregates=aggs, weight=25))
     if tier == "thorough":
         for pi, nrep in (("nonparametric", 4), ("gaussian", 7)):
             alphas = [0.5] if pi == "nonparametric" else [0.7]
@@ -132,6 +139,8 @@ def live(u, est, policy):
     """live count of estimand for the unit as the tables must show it"""
     if not u.in_feed:
         return 0
+    if est == "margin":
+        return u.vals["results_dem"] - u.vals["results_gop"]
     return u.vals["results_%s" % est]
 
 
@@ -169,7 +178,13 @@ def level_cols(case, table):
 
 
 def run(ctx, case):
-    r = P.run_client(ctx, case)
+    bs_mode = case["pi"] == "bootstrap"
+    if bs_mode:
+        from . import bs as BS
+
+        r = BS.run_bs_client(ctx, case)
+    else:
+        r = P.run_client(ctx, case)
     sc, res = r.sc, r.res
     policy = case.get("handle_unreporting", "drop")
     cats = {u.fips: classify(sc, u, case) for u in sc.units}
@@ -205,8 +220,18 @@ def run(ctx, case):
             if g is None:
                 continue
             for est in case["estimands"]:
-                obl.append(("%s %s counted %s conserved" % (table, "/".join(key), est),
-                            AEQ(tab["results_%s" % est].iloc[i], P.csum(live(u, est, policy) for u in g["counted"]))))
+                total = P.csum(live(u, est, policy) for u in g["counted"])
+                if bs_mode:
+                    # margin estimand: the counted margin divided by the group's predicted two-party turnout (0 when that is 0)
+                    pt = tab["pred_turnout"].iloc[i]
+                    got = tab["results_%s" % est].iloc[i]
+                    if sym.is_special(got):
+                        obl.append(("%s %s counted margin is a number" % (table, "/".join(key)), False))
+                        continue
+                    obl.append(("%s %s counted margin conserved (sum of unit margins / predicted turnout)" % (table, "/".join(key)),
+                                AEQ(got * pt, total)))
+                    continue
+                obl.append(("%s %s counted %s conserved" % (table, "/".join(key), est), AEQ(tab["results_%s" % est].iloc[i], total)))
             obl.append(("%s %s reporting count" % (table, "/".join(key)), AEQ(tab["reporting"].iloc[i], len(g["rep"]))))
     return obl, P.tables_out(res)
 
